@@ -327,6 +327,19 @@ class C17(Prop):
                 yield ("reads_history_independent", {"data": data, "seed": rng.randrange(1 << 30)}); k += 1
             if k % 4 == 0:
                 doc = G.document(rng, wellformed=True)
+                if rng.random() < 0.8:
+                    # mostly documents that parse completely, so that the from_raw stage of from_email is reached
+                    from props.C18 import expected_parse
+                    exp = expected_parse(doc)
+                    if exp is not None and exp[1]:
+                        doc["headers"] = [h for h in doc["headers"] if h[0].lower() not in exp[1]]
+                        if "description" in exp[1]:
+                            doc["body"] = None
+                    if rng.random() < 0.6:
+                        have = {h[0].lower() for h in doc["headers"]}
+                        for name, val in (("Metadata-Version", rng.choice(G.SPEC_VERSIONS)), ("Name", "foo"), ("Version", "1.0")):
+                            if name.lower() not in have:
+                                doc["headers"].append([name, ["t", val]])
                 yield ("from_email_reports", {"doc": doc}); k += 1
 
     def check_law(self, law, inp):
@@ -345,7 +358,7 @@ class C17(Prop):
                 if bad:
                     return False, f"group holds {type(bad[0]).__name__}"
                 got = sorted(e.field for e in g.exceptions)
-                if got != sorted(want):
+                if set(got) != want:       # as a set: an unknown key may be spelled like a header name
                     return False, f"ExceptionGroup names {got}, offending fields are {sorted(want)}"
             except Exception as e:
                 return False, f"raises {type(e).__name__} instead of an ExceptionGroup (offending fields: {sorted(want)})"
@@ -353,7 +366,10 @@ class C17(Prop):
                 if want:
                     return False, f"accepted although {sorted(want)} offend"
                 for k in G.FIELDS:
-                    got = canon(getattr(m, k))
+                    try:
+                        got = canon(getattr(m, k))
+                    except Exception as e:
+                        return False, f"{k}: reading it after a successful validation raises {type(e).__name__}"
                     exp = enriched(k, data.get(k))
                     if got != exp:
                         return False, f"{k}: enriched value {got} != component parser's {exp}"
@@ -435,7 +451,7 @@ class C17(Prop):
                 M.Metadata.from_email(text)
             except M.ExceptionGroup as g:
                 got = sorted(getattr(e, "field", type(e).__name__) for e in g.exceptions)
-                if got != sorted(want):
+                if set(got) != want:
                     return False, f"ExceptionGroup names {got}, expected {sorted(want)}"
             except Exception as e:
                 return False, f"raises {type(e).__name__} instead of an ExceptionGroup"
